@@ -62,6 +62,20 @@ prop("C09", level="exploration",
      assumptions=["plain C++ model drivers/common/model.hpp", "values read through public observers only"],
      stages=[dict(name="container", driver="c09_container", flagset="asan", quick=12000, thorough=3000000)])
 
+prop("C10", level="exploration",
+     level_text="Limit monitor: for every container-opening path of every decoder (JSON array/object/mixed; CBOR definite/indefinite/2-byte-length arrays and maps, tagged arrays, stringref namespaces; MessagePack fix/16/32 "
+                "arrays and maps; UBJSON plain/counted/typed arrays and objects; BSON documents/arrays) x limit L x depth L-1/L/L+1 x reader/stream-reader/cursor the outcome must be accept/accept/"
+                "max_nesting_depth_exceeded; the same sweep on all five encoders; UBJSON max_items at N-1/N/N+1 on all counted paths. Allocation meter (global operator new replaced): inputs that claim "
+                "2^16..2^64-1 elements/bytes followed by 0-64 bytes must keep peak requested bytes <= 96 KiB + 24 x (bytes supplied + bytes of value produced). Stack monitor (no sanitizer, painted mmap stack "
+                "with guard page, 256 KiB): copy, compare, dump, parse, CBOR encode/decode, assign and destroy at depth <= 1024, and destruction at depth 10^6.",
+     level_note="Limits L sampled from {0,1,2,3,7,64,1023,1024,1025,20000} and 0..80 in quick, 0..20000 in thorough. The meter constants were fixed from the unchanged tree (observed peak 33 KB on every claim). "
+                "256 KiB is the 'small fixed stack' (measured maximum 169 KB at depth 1024, -O2).",
+     technique="runtime monitoring: boundary sweep monitor + allocation meter (operator new hook) under ASan/UBSan; painted-stack high-water monitor with guard page (no sanitizer)",
+     rule="cells = (format, opening path, limit, depth offset, route) | (encoder, kind, limit) | (claim kind, claimed length, trailing bytes, source) | (max_items N, path); distinct = distinct case index, every cell is non-trivial",
+     assumptions=["meter bound A=96KiB, B=24 is calibrated on the unchanged tree", "stack bound 256 KiB at -O2 without sanitizer instrumentation"],
+     stages=[dict(name="limits", driver="c10_limits", flagset="asan", quick=6000, thorough=400000),
+             dict(name="stack", driver="c10_stack", flagset="plain", quick=600, thorough=20000)])
+
 prop("C16", level="exploration",
      level_text="Every generated (target, patch) pair and (source, target) pair is executed against the real apply_merge_patch/from_diff for json and ojson under ASan+UBSan and "
                 "judged by an RFC 7386 transcription over an independent value model; held means no mismatch on the pairs explored (counts in evidence).",
